@@ -108,7 +108,20 @@ def ns_map_of(nf):
         # the map put together as one text: literal entries (`"soapenv" = "http://.."`) and, per element of a list, `, {:?} = {:?}`
         out = []
         entry = re.compile(r'"([^"]*)"\s*=\s*"([^"]*)"')
-        for p in nf[1]:
+        seq = list(nf[1])
+        # `{key:?} = {value:?}` written with two holes: an entry of its own
+        folded = []
+        i_ = 0
+        while i_ < len(seq):
+            if i_ + 2 < len(seq) and seq[i_][0] == "hole" and seq[i_ + 1][0] == "lit" and re.fullmatch(r"\s*=\s*", seq[i_ + 1][1]) and seq[i_ + 2][0] == "hole" \
+                    and not (isinstance(seq[i_][1], tuple) and seq[i_][1] and seq[i_][1][0] == "joinmap") \
+                    and not (isinstance(seq[i_ + 2][1], tuple) and seq[i_ + 2][1] and seq[i_ + 2][1][0] == "joinmap"):
+                out.append((seq[i_][1], seq[i_ + 2][1], None))
+                i_ += 3
+                continue
+            folded.append(seq[i_])
+            i_ += 1
+        for p in folded:
             if p[0] == "lit":
                 for m in entry.finditer(p[1]):
                     out.append((("lit", m.group(1)), ("lit", m.group(2)), None))
@@ -116,12 +129,31 @@ def ns_map_of(nf):
                     return None
             else:
                 v = p[1]
-                if not (isinstance(v, tuple) and v[0] == "joinmap" and isinstance(v[2], tuple) and v[2][0] == "format"):
+                if isinstance(v, tuple) and v and v[0] == "lit" and isinstance(v[1], str):
+                    continue       # (a hole that turned out to be literal text without an entry in it)
+                if not (isinstance(v, tuple) and v[0] == "joinmap" and isinstance(v[2], tuple)):
                     return None
-                holes = [q[1] for q in v[2][1] if q[0] == "hole"]
-                lits = "".join(q[1] for q in v[2][1] if q[0] == "lit") + (v[3] if isinstance(v[3], str) else "")
+                body = v[2]
+                conds = []
+                if body[0] == "ifelse" and body[3] == ("lit", ""):
+                    # an entry that is appended under conditions: harmless ones only (the element has a namespace at all; it is not in the
+                    # list yet) — any other condition leaves prefixes of members undeclared
+                    stack = [body[1]]
+                    while stack:
+                        c_ = stack.pop()
+                        if isinstance(c_, tuple) and c_ and c_[0] == "binop" and c_[1] == "And":
+                            stack += [c_[2], c_[3]]
+                        else:
+                            conds.append(c_)
+                    body = body[2]
+                if body[0] != "format":
+                    return None
+                holes = [q[1] for q in body[1] if q[0] == "hole"]
+                lits = "".join(q[1] for q in body[1] if q[0] == "lit") + (v[3] if isinstance(v[3], str) else "")
                 if len(holes) != 2 or re.sub(r'[\s=,"]', "", lits):
                     return None
+                if conds and not _harmless_conditions(conds, ("tuple", (holes[0], holes[1]))):
+                    continue
                 out.append((holes[0], holes[1], v[1]))
         return out or None
     return None
